@@ -44,6 +44,7 @@ KIND = {
     "R03.6": "W",
     "R14.8": "W",
     "R14.9": "W",
+    "R14.10": "W",
     "R06.9": "T",
     "R07.11": "W",
     "R18.12": "S",
